@@ -203,7 +203,8 @@ func (encryptor *HashQuery) OnBind(ctx context.Context, parseResult *pg_query.Pa
 			continue
 		}
 		index := int(paramRef.GetNumber() - 1)
-		if index >= len(values) {
+		// the number comes from the statement text: $0 (index -1) is as invalid as a number beyond the bound values
+		if index < 0 || index >= len(values) {
 			logrus.WithFields(logrus.Fields{"placeholder": paramRef.GetNumber(), "index": index, "values": len(values)}).
 				Warning("Invalid placeholder index")
 			return values, false, queryEncryptor.ErrInvalidPlaceholder
